@@ -63,24 +63,23 @@ example : ∃ k', open' exK1 ["f"] .r {} 0 = .ok 1 k' := ⟨_, rfl⟩
 
 /-! ## ★ dup2_laws -/
 
-/-- ★ `dup2`: (1) a closed source is EBADF; (2) a target at or above the limit is EBADF;
-    (3) `dup2(a, a)` on an open descriptor returns `a` and changes nothing (FD_CLOEXEC included);
+/-- ★ `dup2`: (1) a closed source is EBADF; (2) a target other than the source at or above the limit is EBADF;
+    (3) `dup2(a, a)` on an open descriptor returns `a` and changes nothing (FD_CLOEXEC included) — whatever the limit;
     (4) otherwise the target shares the source's open file description, has FD_CLOEXEC clear, every
     other descriptor, every open file description and the file tree are untouched. -/
 theorem dup2_laws (k : K) (a b : Nat) :
     (k.fds a = none → dup2 k a b = .err .EBADF) ∧
-    (∀ e, k.fds a = some e → k.limit ≤ b → dup2 k a b = .err .EBADF) ∧
-    (∀ e, k.fds a = some e → a < k.limit → dup2 k a a = .ok a k) ∧
+    (∀ e, k.fds a = some e → a ≠ b → k.limit ≤ b → dup2 k a b = .err .EBADF) ∧
+    (∀ e, k.fds a = some e → dup2 k a a = .ok a k) ∧
     (∀ e, k.fds a = some e → b < k.limit → a ≠ b →
       ∃ k', dup2 k a b = .ok b k' ∧ k'.fds b = some { ofd := e.ofd, cloexec := false } ∧
         (∀ n, n ≠ b → k'.fds n = k.fds n) ∧ k'.ofds = k.ofds ∧ k'.tree = k.tree ∧
         k'.cwd = k.cwd ∧ k'.umask = k.umask ∧ k'.limit = k.limit) := by
   refine ⟨?_, ?_, ?_, ?_⟩
   · intro h; simp [dup2, h]
-  · intro e h hb; simp [dup2, h, hb]
-  · intro e h ha
-    have : ¬ a ≥ k.limit := by omega
-    simp [dup2, h, this]
+  · intro e h hne hb; simp [dup2, h, hb, hne]
+  · intro e h
+    simp [dup2, h]
   · intro e h hb hne
     have : ¬ b ≥ k.limit := by omega
     refine ⟨{ k with fds := setFd k.fds b (some { ofd := e.ofd, cloexec := false }) },
